@@ -112,6 +112,9 @@ func runNested(c *core.Ctx, idx int) {
 		} else {
 			c.Violation("stuck:nested-wait-with-idle-worker", fmt.Sprintf("AddEventAndWait does not return: %d queued task(s), every worker is either parked in Cond.Wait or blocked in a nested AddEventAndWait inside an action, at least one is parked, no AddTask in flight", queued(tr, pool)), stream, idx, detail)
 		}
+		if queued(tr, pool) == 0 {
+			return // workers blocked in their waits for good: WaitAll would never return either
+		}
 		pool.WaitAll()
 		select {
 		case <-done:
